@@ -249,8 +249,8 @@ _F = {}
 def dft2(shape):
     if shape not in _F:
         n0, n1 = shape
-        W0 = np.exp(-2j * np.pi * np.outer(np.arange(n0), np.arange(n0)) / n0)
-        W1 = np.exp(-2j * np.pi * np.outer(np.arange(n1), np.arange(n1)) / n1)
+        W0 = np.exp(-2j * np.pi * (np.outer(np.arange(n0), np.arange(n0)) % n0) / n0)
+        W1 = np.exp(-2j * np.pi * (np.outer(np.arange(n1), np.arange(n1)) % n1) / n1)
         _F[shape] = np.kron(W0, W1)
     return _F[shape]
 
@@ -383,8 +383,8 @@ def ref_otf(psf):
     n0, n1 = psf.shape
     k0 = np.arange(n0) - n0 // 2
     k1 = np.arange(n1) - n1 // 2
-    W0 = np.exp(-2j * np.pi * np.outer(k0, k0) / n0)
-    W1 = np.exp(-2j * np.pi * np.outer(k1, k1) / n1)
+    W0 = np.exp(-2j * np.pi * (np.outer(k0, k0) % n0) / n0)      # integer argument reduction keeps the reference exact to an ulp
+    W1 = np.exp(-2j * np.pi * (np.outer(k1, k1) % n1) / n1)
     return (W0 @ psf @ W1.T) / psf.sum()
 
 
@@ -400,7 +400,7 @@ def check_psf(R, psf, dx, form, label, s):
     p = R.call(otf.ptf_from_psf, *a)
     t = R.call(otf.otf_from_psf, *a)
     want = ref_otf(psf)
-    tol = 256 * EPS
+    tol = 256 * EPS * max(1.0, max(shape) / 16)
     M = P = T = None
     if m is not FAILED:
         M = getattr(m, 'data', None)
@@ -533,6 +533,69 @@ def run_mtf(case, seed, R):
 
 
 # ---------------------------------------------------------------------------------------------
+# threshold sizes (fast-length / padding fast paths): NOT closed over the data dimension
+
+LARGE_N = (11, 12, 13, 16, 17, 19, 23, 26, 31, 32, 33, 34, 37, 64, 65)
+LARGE_2D = ((13, 17), (16, 13), (26, 8))
+
+
+def large_shapes():
+    out = []
+    for n in LARGE_N:
+        out += [(n, 1), (1, n), (n, 3)]
+    return out + list(LARGE_2D)
+
+
+def run_conv_large(case, seed, R):
+    n0, n1 = case['n0'], case['n1']
+    shape = (n0, n1)
+    o0, o1 = n0 // 2, n1 // 2
+    sig = f'conv:large:{pp(shape)}'
+    corners = {(0, 0), (0, n1 - 1), (n0 - 1, 0), (n0 - 1, n1 - 1)}
+    ps = sorted(corners | {(o0, o1), ((o0 + 1) % n0, (o1 + 1) % n1), (n0 - 1, o1), (o0, n1 - 1)})
+    # second impulse: offsets +1 and +n//2 from the origin (so that the sum wraps around the border), corners, last sample
+    qs = sorted(corners | {(o0, o1), ((o0 + 1) % n0, (o1 + 1) % n1), ((o0 + n0 // 2) % n0, (o1 + n1 // 2) % n1), ((o0 + 1) % n0, o1), (o0, (o1 + 1) % n1)})
+    for p in ps:
+        for q in qs:
+            want = np.zeros(shape)
+            want[(p[0] + q[0] - o0) % n0, (p[1] + q[1] - o1) % n1] = 1.0
+            got = R.call(convolution.conv, delta(shape, p[0] * n1 + p[1]), delta(shape, q[0] * n1 + q[1]))
+            R.expect_close(got, want, 1024 * EPS, sig + ':impulses', f'conv(delta{p}, delta{q}) in {shape}: cyclic translation law')
+    a = dense(shape, seed, 60, complex_=False)
+    b = dense(shape, seed, 61, complex_=False)
+    n2 = lambda x: float(np.sqrt((x ** 2).sum()))   # noqa
+    tol = 400 * EPS * n2(a) * n2(b)
+    ab = R.call(convolution.conv, a.copy(), b.copy())
+    if R.expect_close(ab, ref_conv(a, b), tol, sig + ':dense', f'dense pair vs brute-force circular convolution, {shape}'):
+        R.expect_close(np.asarray(ab).sum(), a.sum() * b.sum(), 400 * EPS * np.abs(a).sum() * np.abs(b).sum(), sig + ':energy', 'sum(conv(a,b)) != sum(a) sum(b)')
+    an, bn = np.abs(a), np.abs(b)
+    got = R.call(convolution.conv, an, bn)
+    if R.expect_close(got, ref_conv(an, bn), tol, sig + ':dense', 'non-negative dense pair'):
+        R.expect_close(np.asarray(got).sum(), an.sum() * bn.sum(), 400 * EPS * an.sum() * bn.sum(), sig + ':energy', 'energy product (non-negative)')
+    for q in qs:
+        want = np.roll(a, (q[0] - o0, q[1] - o1), axis=(0, 1))
+        got = R.call(convolution.conv, a.copy(), delta(shape, q[0] * n1 + q[1]))
+        R.expect_close(got, want, 400 * EPS * n2(a), sig + ':translation', f'conv(a, delta{q}) must be a rolled by {(q[0] - o0, q[1] - o1)}')
+    R.nontrivial(True)
+    R.outcome('large')
+
+
+def run_mtf_large(case, seed, R):
+    n0, n1 = case['n0'], case['n1']
+    shape = (n0, n1)
+    s = 'large:' + pp(shape)
+    for k in sorted({0, n1 - 1, (n0 - 1) * n1, n0 * n1 - 1, (n0 // 2) * n1 + n1 // 2}):
+        check_psf(R, delta(shape, k), 0.5, 'array', f'delta{divmod(k, n1)} in {shape}', s)
+    psf = delta(shape, 0) + 3.0 * delta(shape, n0 * n1 - 1)
+    check_psf(R, psf, 0.5, 'array', f'corner pair in {shape}', s)
+    psf = np.abs(dense(shape, seed, 62, complex_=False))
+    for form in ('array', 'richdata'):
+        check_psf(R, psf, 0.5, form, f'dense non-negative {shape}', s)
+    R.nontrivial(True)
+    R.outcome('large')
+
+
+# ---------------------------------------------------------------------------------------------
 
 def plan(tier, seed):
     B = 5 if tier == 'quick' else 7
@@ -548,6 +611,10 @@ def plan(tier, seed):
     reuse_cases = [{'n0': a, 'n1': b, 'first': f1, 'second': f2, 'form': fm, 'kind': k}
                    for a, b in shapes if a * b > 1 for f1 in OTF_FNS for f2 in OTF_FNS for fm in ('array', 'richdata')
                    for k in ('unmodified', 'assign', 'pedestal', 'roll', 'interleaved')]
+    big = large_shapes()
+    large_cases = [{'n0': a, 'n1': b} for a, b in big]
+    atf_large_cases = [{'n0': a, 'n1': b, 'tfs': l, 'shift': sh, 'grid': 'omitted'} for a, b in big
+                       for l in (['ones'], ['herm'], ['c_fr'], ['real', 'c_fx']) for sh in (True, False)]
     mtf_cases = [{'n0': a, 'n1': b, 'kind': 'single'} for a, b in shapes]
     mtf_cases += [{'n0': a, 'n1': b, 'kind': 'pair', 'p': p} for a, b in shapes for p in range(a * b - 1)]
     mtf_cases += [{'n0': a, 'n1': b, 'kind': 'dense', 'salt': k} for a, b in shapes for k in (0, 1, 2)]
@@ -576,4 +643,12 @@ def plan(tier, seed):
                   f'histories on ONE ndarray, every shape in [2..{B}]-sized grids x ordered pair (first, second) in {{mtf,ptf,otf}}^2 x form {{array, RichData wrapping the array}} x '
                   '{unmodified, next frame assigned in place, pedestal subtracted in place, rolled in place, another array transformed in between then assigned}: '
                   'the second call must answer for the CURRENT contents of the buffer (fresh explicit-DFT reference)'),
+        ScopeUnit('conv_large', large_cases, run_conv_large,
+                  'threshold sizes (NOT closed over the data dimension): axis lengths {11,12,13,16,17,19,23,26,31,32,33,34,37,64,65} in shapes (n,1),(1,n),(n,3) and (13,17),(16,13),(26,8): '
+                  'impulse pairs whose sum wraps around the border (corners, last sample, origin, origin+1, origin+n//2) judged by the cyclic translation law; one dense and one non-negative pair '
+                  'against the brute-force circular convolution, energy product, translation of the dense object by every chosen impulse'),
+        ScopeUnit('atf_large', atf_large_cases, run_atf,
+                  'the same threshold shapes x lists {[ones],[herm],[c_fr],[real,c_fx]} x shift {True,False}: full operator matrix against the explicit-DFT reference'),
+        ScopeUnit('mtf_large', large_cases, run_mtf_large,
+                  'the same threshold shapes: corner / centre impulses, a corner pair and a dense non-negative PSF through mtf/ptf/otf_from_psf against the explicit-DFT reference'),
     ]
